@@ -224,8 +224,11 @@ func (api *HTTP) handleStatus(res http.ResponseWriter, req *http.Request) {
 		return
 	}
 
-	api.ircServer().ConfigMu.RLock()
-	defer api.ircServer().ConfigMu.RUnlock()
+	// Use one IRCServer for locking, reading and unlocking: FSM.Restore can
+	// replace api.ircServer() at any time.
+	i := api.ircServer()
+	i.ConfigMu.RLock()
+	defer i.ConfigMu.RUnlock()
 	args := struct {
 		Addr               string
 		State              raft.RaftState
@@ -242,9 +245,9 @@ func (api *HTTP) handleStatus(res http.ResponseWriter, req *http.Request) {
 		Leader:             string(api.raftNode.Leader()),
 		Peers:              p,
 		Stats:              api.raftNode.Stats(),
-		Sessions:           api.ircServer().GetSessions(),
+		Sessions:           i.GetSessions(),
 		GetMessageRequests: api.copyGetMessagesRequests(),
-		NetConfig:          api.ircServer().Config,
+		NetConfig:          i.Config,
 		CurrentLink:        "/status",
 	}
 
